@@ -1,13 +1,45 @@
 (* Bus/T_C04.v -- C04: redelivery lease. The backoff function itself is in
    BackoffProofs.v (monotone, capped, saturating); [nominal_delay] is that function. *)
 From MB Require Import Base Backoff.
-From MB.Bus Require Import State Ops Step Defs.
+From MB.Bus Require Import State Ops Step Defs T_Inv L04_Lists L04_Evo L04_Pull L04_Step.
 Local Open Scope string_scope.
 Open Scope list_scope.
 Open Scope Z_scope.
 
 Theorem nominal_delay_is_backoff minb maxb n : nominal_delay minb maxb n = Backoff.nominal minb maxb n.
-Admitted.
+Proof. reflexivity. Qed.
+
+(* ---- step-level consequences of the row descriptions in L04_*.v ---- *)
+Lemma dels_unique st : ids_unique st -> NoDup (map d_id (dels st)).
+Proof. intros [_ [_ [_ [H _]]]]. exact H. Qed.
+
+Lemma step_rel st now o x x' :
+  ids_unique st -> legal st now o ->
+  (forall name max returned others w fz fr, o <> Pull name max returned others w fz fr) ->
+  In x (dels st) -> In x' (dels (post st now o)) -> d_id x' = d_id x -> StepR st o x x'.
+Proof.
+  intros U L Hnp Hx Hx' He.
+  destruct (step_desc_all st now o Hnp) as [V|B].
+  - eapply evo_rel; eauto. apply dels_unique. apply step_ids_unique; assumption.
+  - destruct (B x' Hx') as [x0 [H0 [E0 R0]]].
+    assert (x0 = x) by (eapply (nodup_key_inj d_id); [apply dels_unique; exact U| | |]; eauto; congruence).
+    subst x0. exact R0.
+Qed.
+
+Lemma step_origin st now o x' :
+  ids_unique st -> legal st now o -> In x' (dels (post st now o)) ->
+  In (d_id x') (map d_id (dels st)) \/ In (d_id x') (op_fresh_dels o).
+Proof.
+  intros U L Hx'. destruct (pull_or_not o) as [[name [max [returned [others [w [fz [fr ->]]]]]]]|Hnp].
+  - destruct (pull_legal st now name max returned others w fz fr U L)
+      as [[Hp _]|[s [st1 [fr1 [ps [wk [_ [E [Hp _]]]]]]]]].
+    + rewrite Hp in Hx'. left. apply in_map. exact Hx'.
+    + rewrite Hp in Hx'. apply AR_evo in E; [|reflexivity]. destruct E as [_ [_ V]].
+      exact (evo_origin _ _ _ _ _ V Hx').
+  - destruct (step_desc_all st now o Hnp) as [V|B].
+    + exact (evo_origin _ _ _ _ _ V Hx').
+    + destruct (B x' Hx') as [x0 [H0 [E0 _]]]. left. rewrite <- E0. apply in_map. exact H0.
+Qed.
 
 (* ---- what a pull does to a delivery it hands out ---- *)
 (* Handing a delivery out as attempt n = attempts + 1 sets its next attempt to
@@ -24,14 +56,41 @@ Theorem pull_lease st now name max returned others w fz fr p :
      w + nom - float_tol <= d_attempt_at d' < w + nom + sec + float_tol) /\
     d_completed d' = None /\ d_expires d' = d_expires d /\ d_msg d' = d_msg d /\ d_sub d' = d_sub d /\
     d_published d' = d_published d /\ d_not_before d' = d_not_before d /\ d_last d' = Some w.
-Admitted.
+Proof.
+  intros U L Hp.
+  destruct (pull_legal st now name max returned others w fz fr U L)
+    as [[_ Ha]|[s [st1 [fr1 [ps [wk [Hs [E [Hpost [Ha [K1 K2]]]]]]]]]]].
+  - rewrite Ha in Hp. destruct Hp.
+  - rewrite Ha in Hp. cbn [pulled_of] in Hp.
+    assert (Hin : forall c, In c (pull_cands st returned others) -> In c (dels (pull_st0 st s w)))
+      by (intros c Hc; apply (K2 c Hc)).
+    destruct (AR_lease _ _ _ _ _ _ _ _ _ _ _ _ _ _ _ _ E eq_refl K1 Hin p Hp)
+      as [c [Hc [Hack [Hatt [Hl [Hf _]]]]]].
+    destruct (K2 c Hc) as [Hcin Hel]. apply eligible_facts in Hel.
+    destruct Hel as [Hsub [Hcomp [_ Hat]]].
+    exists s, c, (leaseL s w fz c c). rewrite Hpost.
+    apply fuzz_legal_bounds in Hf. unfold leaseL, nomL in *.
+    cbn [d_lease d_id d_attempts d_attempt_at d_completed d_expires d_msg d_sub d_published d_not_before d_last].
+    repeat split; auto; lia.
+Qed.
 
 (* a pull only hands out deliveries whose lease has lapsed: attempt_at <= now *)
 Theorem pull_respects_lease st now name max returned others w fz fr d :
   ids_unique st -> legal st now (Pull name max returned others w fz fr) ->
   In d (dels st) -> now < d_attempt_at d ->
   ~ In (d_id d) (map p_ack (pulled_of (answer st now (Pull name max returned others w fz fr)))).
-Admitted.
+Proof.
+  intros U L Hd Hlt Hi.
+  destruct (pull_legal st now name max returned others w fz fr U L)
+    as [[_ Ha]|[s [st1 [fr1 [ps [wk [Hs [E [Hpost [Ha [K1 K2]]]]]]]]]]].
+  - rewrite Ha in Hi. destruct Hi.
+  - rewrite Ha in Hi. cbn [pulled_of] in Hi.
+    destruct (AR_acks _ _ _ _ _ _ _ _ _ _ _ _ _ _ _ _ E K1) as [_ Hincl].
+    apply Hincl in Hi. apply in_map_iff in Hi. destruct Hi as [c [Ec Hc]].
+    destruct (K2 c Hc) as [Hcin Hel]. apply eligible_facts in Hel.
+    assert (c = d) by (eapply (nodup_key_inj d_id); [apply dels_unique; exact U| | |]; eauto).
+    subst c. lia.
+Qed.
 
 (* attempts are only ever incremented by a pull handing the delivery out, by exactly 1 *)
 Theorem attempts_only_by_pull st now o d d' :
@@ -41,7 +100,28 @@ Theorem attempts_only_by_pull st now o d d' :
   (d_attempts d' = d_attempts d + 1 /\
    exists name max returned others w fz fr, o = Pull name max returned others w fz fr /\
      In (d_id d) (map p_ack (pulled_of (answer st now o)))).
-Admitted.
+Proof.
+  intros U L Hd Hd' He.
+  destruct (pull_or_not o) as [[name [max [returned [others [w [fz [fr ->]]]]]]]|Hnp].
+  - destruct (pull_legal st now name max returned others w fz fr U L)
+      as [[Hpost _]|[s [st1 [fr1 [ps [wk [Hs [E [Hpost [Ha [K1 K2]]]]]]]]]]].
+    + rewrite Hpost in Hd'. left.
+      assert (d' = d) by (eapply (nodup_key_inj d_id); [apply dels_unique; exact U| | |]; eauto).
+      subst d'. reflexivity.
+    + pose proof (step_ids_unique _ _ _ U L) as U'. apply dels_unique in U'.
+      rewrite Hpost in Hd', U'.
+      destruct (AR_acks _ _ _ _ _ _ _ _ _ _ _ _ _ _ _ _ E K1) as [Hnd _].
+      apply AR_evo in E; [|reflexivity]. destruct E as [_ [_ V]].
+      destruct (evo_rel _ _ _ _ V U' d d' Hd Hd' He) as [_ [Hcnt _]].
+      pose proof (count_occ_nodup_le (map p_ack ps) (d_id d) Hnd) as Hle.
+      destruct (count_occ N.eq_dec (map p_ack ps) (d_id d)) as [|k] eqn:Ek.
+      * left. rewrite Hcnt. cbn. lia.
+      * right. split; [rewrite Hcnt; destruct k; [cbn; lia|lia]|].
+        exists name, max, returned, others, w, fz, fr. split; [reflexivity|].
+        rewrite Ha. cbn [pulled_of].
+        apply (count_occ_In N.eq_dec). unfold State.id in *. rewrite Ek. lia.
+  - left. exact (proj1 (step_rel st now o d d' U L Hnp Hd Hd' He)).
+Qed.
 
 (* ---- what may bring attempt_at forward (make a delivery due earlier) ---- *)
 (* Only an explicit nack (stream Nack, ModifyAckDeadline <= 0) or a seek reviving the
@@ -61,7 +141,27 @@ Theorem lease_only_shortened_explicitly st now o d d' :
   In d (dels st) -> In d' (dels (post st now o)) -> d_id d' = d_id d ->
   may_advance st o d = false ->
   d_attempt_at d <= d_attempt_at d' + float_tol.
-Admitted.
+Proof.
+  intros U L Hw Hd Hd' He Hadv.
+  destruct (pull_or_not o) as [[name [max [returned [others [w [fz [fr ->]]]]]]]|Hnp].
+  - destruct (pull_legal st now name max returned others w fz fr U L)
+      as [[Hpost _]|[s [st1 [fr1 [ps [wk [Hs [E [Hpost [Ha [K1 K2]]]]]]]]]]].
+    + rewrite Hpost in Hd'.
+      assert (d' = d) by (eapply (nodup_key_inj d_id); [apply dels_unique; exact U| | |]; eauto).
+      subst d'. unfold float_tol. lia.
+    + pose proof (step_ids_unique _ _ _ U L) as U'. apply dels_unique in U'.
+      rewrite Hpost in Hd', U'.
+      apply AR_evo in E; [|reflexivity]. destruct E as [_ [_ V]].
+      destruct (evo_rel _ _ _ _ V U' d d' Hd Hd' He) as [_ [_ [Heq|[Hi Hge]]]].
+      * rewrite Heq. unfold float_tol. lia.
+      * apply in_map_iff in Hi. destruct Hi as [c [Ec Hc]].
+        destruct (K2 c Hc) as [Hcin Hel]. apply eligible_facts in Hel.
+        assert (c = d) by (eapply (nodup_key_inj d_id); [apply dels_unique; exact U| | |]; eauto).
+        subst c. specialize (Hw w eq_refl). unfold float_tol in *. lia.
+  - destruct (step_rel st now o d d' U L Hnp Hd Hd' He) as [_ H].
+    change (may_advance st o d) with (adv st o d) in Hadv. specialize (H Hadv).
+    unfold float_tol. lia.
+Qed.
 
 (* ---- ModifyAckDeadline ---- *)
 Theorem modack_law st now name ids secs w d :
@@ -70,14 +170,36 @@ Theorem modack_law st now name ids secs w d :
   exists d', In d' (dels (post st now (ModAck name (Some ids) secs w))) /\ d_id d' = d_id d /\
     d_attempt_at d' = (if secs <=? 0 then w + secs * sec else Z.max (d_attempt_at d) (w + secs * sec)) /\
     d_attempts d' = d_attempts d /\ d_completed d' = None /\ d_expires d' = d_expires d.
-Admitted.
+Proof.
+  intros Hv U Hd Hm Hc.
+  assert (Hp : ack_pred ids d = true).
+  { unfold ack_pred. rewrite Hm, Hc. reflexivity. }
+  unfold post, step. rewrite Hv. cbn [negb]. unfold do_delay.
+  destruct (secs * sec <=? 0) eqn:E; cbn [done r_state set_dels dels].
+  - pose proof (in_upd_where_intro (ack_pred ids) (d_set_attempt_at (w + secs * sec)) (dels st) d Hd) as Hi.
+    rewrite Hp in Hi. eexists. split; [exact Hi|].
+    assert (Hs : secs <=? 0 = true) by (apply Z.leb_le; apply Z.leb_le in E; pose proof sec_pos; nia).
+    rewrite Hs. cbn [d_set_attempt_at d_id d_attempt_at d_attempts d_completed d_expires]. auto.
+  - pose proof (in_upd_where_intro (fun d0 => ack_pred ids d0 && (d_attempt_at d0 <? w + secs * sec))
+                  (d_set_attempt_at (w + secs * sec)) (dels st) d Hd) as Hi.
+    cbv beta in Hi. rewrite Hp in Hi. cbn [andb] in Hi.
+    assert (Hs : secs <=? 0 = false) by (apply Z.leb_gt; apply Z.leb_gt in E; pose proof sec_pos; nia).
+    rewrite Hs. eexists. split; [exact Hi|].
+    destruct (d_attempt_at d <? w + secs * sec) eqn:El;
+      cbn [d_set_attempt_at d_id d_attempt_at d_attempts d_completed d_expires];
+      [apply Z.ltb_lt in El|apply Z.ltb_ge in El]; repeat split; auto; lia.
+Qed.
 
 (* zero deadline: immediately redeliverable (attempt_at <= the transaction's time) *)
 Corollary modack_zero_due st now name ids w d :
   valid_sub_name name = true -> ids_unique st ->
   In d (dels st) -> mem_id (d_id d) ids = true -> d_completed d = None ->
   exists d', In d' (dels (post st now (ModAck name (Some ids) 0 w))) /\ d_id d' = d_id d /\ d_attempt_at d' = w.
-Admitted.
+Proof.
+  intros Hv U Hd Hm Hc.
+  destruct (modack_law st now name ids 0 w d Hv U Hd Hm Hc) as [d' [H1 [H2 [H3 _]]]].
+  exists d'. split; [exact H1|]. split; [exact H2|]. rewrite H3. cbn. lia.
+Qed.
 
 (* ---- nack reschedules by the backoff (or dead-letters) ---- *)
 Theorem nack_law st now acks nacks w fz fr d s :
@@ -91,9 +213,92 @@ Theorem nack_law st now acks nacks w fz fr d s :
     else d_completed d' = None /\
          (let nom := nominal_delay (s_minb s) (s_maxb s) (d_attempts d) in
           w + nom - float_tol <= d_attempt_at d' < w + nom + sec + float_tol).
-Admitted.
+Proof.
+  intros U L Hd Hn Ha Hc Hexp Hs.
+  unfold legal, post in *. unfold step in *. unfold do_ack in *.
+  set (st1 := set_dels st (upd_where (ack_pred acks) (d_set_completed w) (dels st))) in *.
+  destruct (do_nack st1 nacks now w fz fr) as [[[st2 fr2] w2] n2] eqn:E.
+  cbn [done r_state r_notes] in *.
+  apply app_eq_nil in L. destruct L as [Hn2 _]. subst n2.
+  unfold do_nack in E.
+  assert (Hd1 : In d (dels st1)).
+  { unfold st1. cbn [set_dels dels].
+    pose proof (in_upd_where_intro (ack_pred acks) (d_set_completed w) (dels st) d Hd) as Hi.
+    unfold ack_pred in Hi at 1. rewrite Ha in Hi. exact Hi. }
+  assert (Hnd1 : NoDup (map d_id (dels st1))).
+  { unfold st1. cbn [set_dels dels]. rewrite map_key_upd; [apply dels_unique; exact U|reflexivity]. }
+  pose proof (nack_each_law now w fz _ _ _ _ _ _ _ E eq_refl
+                (nodup_map_filter d_id _ _ Hnd1)
+                (fun c Hc0 => proj1 (proj1 (filter_In _ _ _) Hc0))) as Law.
+  assert (Hds : In d (filter (fun d0 => mem_id (d_id d0) nacks && is_none (d_completed d0) && (now <? d_expires d0))
+                             (dels st1))).
+  { apply filter_In. split; [exact Hd1|]. rewrite Hn, Hc. cbn. apply Z.ltb_lt. exact Hexp. }
+  specialize (Law d s Hds Hs).
+  destruct (full_dl s && (max_attempts_of s <=? d_attempts d)).
+  - eexists. split; [exact Law|]. cbn. auto.
+  - destruct Law as [Law Hf]. eexists. split; [exact Law|].
+    apply fuzz_legal_bounds in Hf. unfold nackN in *.
+    cbn [d_set_attempt_at d_id d_attempts d_completed d_attempt_at].
+    repeat split; auto; lia.
+Qed.
 
 (* ---- exclusivity over histories ---- *)
+Lemma pulled_in_dels st now o i :
+  ids_unique st -> legal st now o -> In i (map p_ack (pulled_of (answer st now o))) ->
+  exists name max returned others w fz fr, o = Pull name max returned others w fz fr /\
+    exists x, In x (dels st) /\ d_id x = i.
+Proof.
+  intros U L Hi.
+  destruct (pull_or_not o) as [[name [max [returned [others [w [fz [fr ->]]]]]]]|Hnp].
+  - exists name, max, returned, others, w, fz, fr. split; [reflexivity|].
+    apply in_map_iff in Hi. destruct Hi as [p [Ep Hp]].
+    destruct (pull_lease st now name max returned others w fz fr p U L Hp)
+      as [s [x [x' [_ [Hx [Ex _]]]]]].
+    exists x. split; [exact Hx|congruence].
+  - rewrite (nonpull_answer st now o Hnp) in Hi. destruct Hi.
+Qed.
+
+(* invariant: after k steps every row with id i has attempt_at >= T - float_tol * k *)
+Lemma excl_gen h : forall st i T,
+  ids_unique st -> all_legal st h ->
+  (forall s now o w, In (s, now, o) (trace st h) -> op_wnow o = Some w -> now <= w) ->
+  (forall x, In x (dels st) -> d_id x = i -> T <= d_attempt_at x) ->
+  (forall s now o d0, In (s, now, o) (trace st h) -> In d0 (dels s) -> d_id d0 = i ->
+                      may_advance s o d0 = false) ->
+  (forall s now o, In (s, now, o) (trace st h) -> ~ In i (op_fresh_dels o)) ->
+  forall s now o, In (s, now, o) (trace st h) -> now < T - float_tol * Z.of_nat (length h) ->
+    ~ In i (map p_ack (pulled_of (answer s now o))).
+Proof.
+  induction h as [|[now0 o0] r IH]; intros st i T U AL Hw HT Hadv Hfr s now o Hin Hlt; [destruct Hin|].
+  cbn [trace] in *. cbn [length] in Hlt. rewrite Nat2Z.inj_succ in Hlt.
+  assert (L0 : legal st now0 o0) by (apply AL; left; reflexivity).
+  assert (Hk : 0 <= float_tol * Z.of_nat (length r)) by (unfold float_tol; lia).
+  destruct Hin as [Heq|Hin].
+  - inversion Heq; subst s now o. intros Hi.
+    destruct (pulled_in_dels st now0 o0 i U L0 Hi)
+      as [name [max [returned [others [w [fz [fr [-> [x [Hx Ex]]]]]]]]]].
+    rewrite <- Ex in Hi.
+    apply (pull_respects_lease st now0 name max returned others w fz fr x U L0 Hx); [|exact Hi].
+    specialize (HT x Hx Ex). unfold float_tol in *. lia.
+  - apply (IH (post st now0 o0) i (T - float_tol)).
+    + apply step_ids_unique; assumption.
+    + intros s1 n1 o1 H1. apply AL. right. exact H1.
+    + intros s1 n1 o1 w1 H1. apply (Hw s1 n1 o1 w1). right. exact H1.
+    + intros x' Hx' Ex'.
+      destruct (step_origin st now0 o0 x' U L0 Hx') as [Ho|Ho].
+      * apply in_map_iff in Ho. destruct Ho as [x [Ex Hx]].
+        assert (Ha : may_advance st o0 x = false)
+          by (apply (Hadv st now0 o0 x); [left; reflexivity|exact Hx|congruence]).
+        pose proof (lease_only_shortened_explicitly st now0 o0 x x' U L0
+                      (fun w0 Hw0 => Hw st now0 o0 w0 (or_introl eq_refl) Hw0) Hx Hx' (eq_sym Ex) Ha) as Hle.
+        specialize (HT x Hx (eq_trans Ex Ex')). lia.
+      * exfalso. apply (Hfr st now0 o0); [left; reflexivity|]. rewrite <- Ex'. exact Ho.
+    + intros s1 n1 o1 d0 H1. apply (Hadv s1 n1 o1 d0). right. exact H1.
+    + intros s1 n1 o1 H1. apply (Hfr s1 n1 o1). right. exact H1.
+    + exact Hin.
+    + lia.
+Qed.
+
 (* After a delivery has been handed out with next attempt at T, no pull at any time
    before T - tolerance returns it again -- to anyone -- in any legal continuation that
    contains no nack, non-positive deadline change or seek for it. *)
@@ -106,4 +311,17 @@ Theorem C04_exclusive h : forall st d T,
   (forall s now o, In (s, now, o) (trace st h) -> ~ In (d_id d) (op_fresh_dels o)) ->
   forall s now o, In (s, now, o) (trace st h) -> now < T - float_tol * Z.of_nat (length h) ->
     ~ In (d_id d) (map p_ack (pulled_of (answer s now o))).
-Admitted.
+Proof.
+  intros st d T U AL Hw Hd HT Hadv Hfr.
+  apply (excl_gen h st (d_id d) T U AL Hw).
+  - intros x Hx Ex.
+    assert (x = d) by (eapply (nodup_key_inj d_id); [apply dels_unique; exact U| | |]; eauto).
+    subst x. exact HT.
+  - intros s now o d0 Hin Hd0 E0. apply (Hadv s now o d0 Hin Hd0 E0).
+  - exact Hfr.
+Qed.
+
+Print Assumptions pull_lease.
+Print Assumptions nack_law.
+Print Assumptions lease_only_shortened_explicitly.
+Print Assumptions C04_exclusive.
